@@ -121,11 +121,70 @@ def enc_check(ds_bytes, mx, ctx=3, file_backed=False, offset=0, seed=0):
             os.unlink(tmp)
 
 
+def send_msg_check():
+    """native: the REAL DIMSEServiceProvider.send_msg with a stub association (roles, announced maximum lengths) and a provider
+    that records the P-DATA primitives: message type of the command set, context id, PDV sizes against the PEER's maximum"""
+    import types
+    from pydicom.dataset import Dataset
+    from pynetdicom.dimse import DIMSEServiceProvider
+    from pynetdicom.dimse_primitives import C_FIND, C_GET, C_CANCEL
+    from pynetdicom.dsutils import encode, decode
+    ident = Dataset()
+    ident.PatientName = "X" * 300
+    ident_b = encode(ident, True, True)
+
+    def prims():
+        for cls, field_rq, field_rsp in ((C_ECHO, 0x0030, 0x8030), (C_FIND, 0x0020, 0x8020), (C_GET, 0x0010, 0x8010)):
+            for rsp in (False, True):
+                p = cls()
+                p.AffectedSOPClassUID = "1.2.840.10008.1.1" if cls is C_ECHO else "1.2.840.10008.5.1.4.1.2.1.1"
+                if rsp:
+                    p.MessageIDBeingRespondedTo, p.Status = 5, 0xFF00 if cls is not C_ECHO else 0
+                else:
+                    p.MessageID = 5
+                    if cls is not C_ECHO:
+                        p.Priority = 2
+                if cls is not C_ECHO and (not rsp or cls is C_FIND):
+                    p.Identifier = BytesIO(ident_b)
+                yield cls.__name__, rsp, p, (field_rsp if rsp else field_rq)
+        c = C_CANCEL()
+        c.MessageIDBeingRespondedTo = 5
+        yield "C_CANCEL", True, c, 0x0FFF
+    for is_requestor in (True, False):
+        for rq_max, ac_max in ((16382, 64), (64, 16382), (0, 32), (32, 0)):
+            for name, rsp, prim, field in prims():
+                sent = []
+                assoc = types.SimpleNamespace(is_requestor=is_requestor, is_acceptor=not is_requestor,
+                                              requestor=types.SimpleNamespace(maximum_length=rq_max),
+                                              acceptor=types.SimpleNamespace(maximum_length=ac_max), get_handlers=lambda ev: [],
+                                              dul=types.SimpleNamespace(send_pdu=sent.append))
+                d = DIMSEServiceProvider(assoc)
+                d.send_msg(prim, 3)
+                peer = ac_max if is_requestor else rq_max
+                pdvs = [x for pd in sent for x in pd.presentation_data_value_list]
+                cmd = b"".join(v[1:] for (_c, v) in pdvs if v[0] & 1)
+                got_field = decode(BytesIO(cmd), True, True).CommandField
+                too_long = [len(v) + 5 for (_c, v) in pdvs if peer and len(v) + 5 > peer]
+                if got_field != field or any(c != 3 for (c, _v) in pdvs) or too_long:
+                    return dict(input={"primitive": name, "response": rsp, "local side is requestor": is_requestor,
+                                       "requestor maximum length": rq_max, "acceptor maximum length": ac_max},
+                                observed={"CommandField": hex(got_field), "context ids": sorted({c for (c, _v) in pdvs}),
+                                          "PDV list lengths over the peer's maximum": too_long},
+                                expected={"CommandField": hex(field), "context ids": [3], "every PDV list length <=": peer or "unlimited"})
+    return None
+
+
 def main():
     rec = load()
     model = rec.get("model") or {}
     oid = rec["id"]
     bad = None
+    if "send_msg" in oid or oid.endswith("cross-check"):
+        bad = send_msg_check()
+        if bad:
+            done(True, **bad)
+        if "send_msg" in oid:
+            done(False, note="real send_msg used the right message type, context id and the peer's maximum length on every tried combination")
 
     def mb(name, default=b""):
         v = model.get(name)
